@@ -8,14 +8,34 @@ from gtwrap.template_instantiator.declaration import InstantiatedDeclaration
 from gtwrap.template_instantiator.function import InstantiatedGlobalFunction
 
 
-def instantiate_namespace(namespace):
+def _resolve_typedefs(namespace, resolved):
+    """
+    Look up the template which each `typedef` in `namespace` (and its nested
+    namespaces) refers to. This has to happen before any namespace content is
+    replaced, since the replaced content no longer holds the templates.
+    """
+    for element in namespace.content:
+        if isinstance(element, parser.TypedefTemplateInstantiation):
+            resolved[element] = namespace.top_level(
+            ).find_class_or_function(element.typename)
+        elif isinstance(element, parser.Namespace):
+            _resolve_typedefs(element, resolved)
+
+
+def instantiate_namespace(namespace, resolved_typedefs=None):
     """
     Instantiate the classes and other elements in the `namespace` content and
     assign it back to the namespace content attribute.
 
     @param[in/out] namespace The namespace whose content will be replaced with
         the instantiated content.
+    @param[in] resolved_typedefs The templates of the typedefs,
+        looked up by the outermost call.
     """
+    if resolved_typedefs is None:
+        resolved_typedefs = {}
+        _resolve_typedefs(namespace, resolved_typedefs)
+
     instantiated_content = []
     typedef_content = []
 
@@ -54,9 +74,7 @@ def instantiate_namespace(namespace):
             # This is for the case where `typedef` statements are used
             # to specify the template parameters.
             typedef_inst = element
-            top_level = namespace.top_level()
-            original_element = top_level.find_class_or_function(
-                typedef_inst.typename)
+            original_element = resolved_typedefs[typedef_inst]
 
             # Check if element is a typedef'd class, function or
             # forward declaration from another project.
@@ -77,7 +95,7 @@ def instantiate_namespace(namespace):
                         typedef_inst.new_name))
 
         elif isinstance(element, parser.Namespace):
-            element = instantiate_namespace(element)
+            element = instantiate_namespace(element, resolved_typedefs)
             instantiated_content.append(element)
         else:
             instantiated_content.append(element)
